@@ -57,7 +57,7 @@ res.append(case('switch-init', sub(base_ret,'switch x := cvss20.u0; x {\n\tcase 
 res.append(case('method-value', sub(base_ret,'f := cvss20.Impact\n\t_ = f\n\t'+base_ret)))
 res.append(case('interface-call', lambda s: s.replace(base_ret,'var e error = ErrInvalidMetricValue\n\t_ = e.Error()\n\t'+base_ret)))
 res.append(case('generic', lambda s: s.replace(base_ret,base_ret.replace('0.6 * impact','0.6 * idT(impact)'))+'\nfunc idT[T any](x T) T { return x }\n'))
-res.append(case('blank-assign-call', lambda s: s.replace(base_ret,'_ = sideEffect()\n\t'+base_ret)+'\nvar counter int\n\nfunc sideEffect() int { counter++; return counter }\n', expect='translate'))
+res.append(case('blank-assign-call', lambda s: s.replace(base_ret,'_ = sideEffect()\n\t'+base_ret)+'\nvar counter int\n\nfunc sideEffect() int { counter++; return counter }\n'))
 res.append(case('dec', sub(base_ret,'n := 3\n\tn--\n\t_ = n\n\t'+base_ret)))
 res.append(case('neg-float-to-int', sub(base_ret,'n := int(impact - 20)\n\t_ = n\n\t'+base_ret), expect='translate'))
 # found by the machinery audit of round 4 (docs/AUDIT-round4.md)
@@ -70,6 +70,15 @@ res.append(case('make-with-length', sub(base_ret,'bb := make([]byte, 3)\n\t_ = b
 res.append(case('second-presized-buffer', lambda s: s.replace('\tb := make([]byte, 0, l)\n','\tb := make([]byte, 0, l)\n\tif l > 1000 {\n\t\tb = make([]byte, 0, 4)\n\t}\n',1)))
 res.append(case('float32', sub(base_ret,'f32 := float32(impact) * 3\n\t_ = f32\n\t'+base_ret)))
 res.append(case('spoofed-build-tag-comment', lambda s: s, extra_files={'doc_notes.go':'/*\nNotes.\n//go:build verif\n*/\n\npackage gocvss20\n\nimport "os"\n\nfunc init() {\n\tif os.Getenv("X") != "" {\n\t\torder[0] = []string{"XX"}\n\t}\n}\n'}, expect='translate', must='doc_notes.go:init'))
+# found by the false-pass audit of round 5 (docs/AUDIT-round5.md)
+res.append(case('pointer-arg-in-expression', lambda s: s.replace(base_ret,'keep := settle(&impact)\n\t'+base_ret.replace('0.6 * impact','0.6 * impact * keep'))+'\nfunc settle(w *float64) float64 {\n\tif *w == 3 {\n\t\t*w = 0.5\n\t}\n\treturn 1\n}\n'))
+res.append(case('discarded-call', lambda s: s.replace(base_ret,'_ = roundTo1Decimal(impact)\n\t'+base_ret)))
+res.append(case('reserved-word-collision', sub(base_ret,'e := impact\n\te_ := exploitability\n\t'+base_ret.replace('0.6 * impact','0.6 * e').replace('0.4 * exploitability','0.4 * e_'))))
+res.append(case('field-name-collision', sub(base_ret,'u0 := impact\n\t'+base_ret.replace('0.6 * impact','0.6 * u0'))))
+res.append(case('signed-shift-count', sub(base_ret,'sh := uint8(1) << int(cvss20.u0)\n\timpact = impact + float64(sh)\n\t'+base_ret)))
+res.append(case('runtime-capacity-elsewhere', lambda s: s.replace(base_ret,'tmp := make([]byte, 0, int(cvss20.u0))\n\timpact = impact + float64(len(tmp))\n\t'+base_ret), expect='translate', must='"CVSS20.BaseScore", "CVSS20.Vector"'))
+res.append(case('return-in-range-in-if', sub(base_ret,'bonus := 0.0\n\tif impact == 3 {\n\t\tfor _, t := range []float64{3} {\n\t\t\tif impact == t {\n\t\t\t\treturn 9.9\n\t\t\t}\n\t\t\tbonus = 1\n\t\t}\n\t}\n\timpact = impact + bonus\n\t'+base_ret), expect='translate', must='4023cccccccccccd'))
+res.append(case('wide-overflow', sub(base_ret,'h := uint64(cvss20.u0) * 0x9E3779B97F4A7C15\n\tif h == 5 {\n\t\timpact = 0\n\t}\n\t'+base_ret)))
 shutil.rmtree(SCRATCH, ignore_errors=True)
 allok = all(r for r in res) and None not in res
 print('translator self-test:', 'ALL OK' if allok else 'FAILURES')
